@@ -20,7 +20,12 @@ def main(path: str) -> int:
     else:
         from . import harness
 
-        issues = harness.concrete_run_poisoned(mod.body_for(case), case, values, case.get("options"), reverse_ties=rec.get("env") == "reverse-ties", narrow=rec.get("env") == "int32")
+        if rec.get("env") == "reuse":
+            issues = harness.reuse_rerun(mod.body_for(case), case, {k: Fraction(v) for k, v in rec.get("values_before", {}).items()}, values, case.get("options"))
+        elif rec.get("env") == "scribble":
+            issues = harness.scribble_rerun(mod.body_for(case), case, values, case.get("options"))
+        else:
+            issues = harness.concrete_run_poisoned(mod.body_for(case), case, values, case.get("options"), reverse_ties=rec.get("env") == "reverse-ties", narrow=rec.get("env") == "int32")
     print("replay of %s: case=%s" % (path, json.dumps(case)[:400]))
     print("values:", rec.get("values"))
     for i in issues:
